@@ -82,11 +82,14 @@ def run(chk, repo, tier):
             nres += 1
     # ---- R3: stores to field attributes
     E = Effects(repo)
+    from ..effects import constructor_helpers
+    helpers = constructor_helpers(E)
     bad = []
     for s in E.sites:
         for tt in ast.walk(s.node):
             if isinstance(tt, ast.Attribute) and isinstance(tt.ctx, (ast.Store, ast.Del)) and tt.attr in FIELD_ATTRS:
-                if s.func.node.name != "__init__" or not (isinstance(tt.value, ast.Name) and tt.value.id == s.func.params[0]):
+                if (s.func.node.name != "__init__" and s.func.qualname not in helpers) \
+                        or not (isinstance(tt.value, ast.Name) and tt.value.id == s.func.params[0]):
                     bad.append(f"{s.func.qualname} writes .{tt.attr} at {s.where}")
     chk.ob("C08.R3", "py_ecc.fields", "field attributes written only by constructors; every operator result above is stored reduced",
            not bad, "; ".join(bad[:3]), "py_ecc/fields")
